@@ -31,14 +31,14 @@ deriving DecidableEq, Repr
 
 /-- `tarTypeToFsType` -/
 def tarTypeToFsType (t : UInt8) : TarTypeRes :=
-  if t = 0x30 ∨ t = 0 then .kind .file          -- '0', '\x00'
+  if t = 0x30 ∨ t = 0 ∨ t = 0x53 then .kind .file   -- '0', '\x00', 'S' (old-GNU sparse: `fix:` f99687e)
   else if t = 0x31 then .kind .hardlink          -- '1'
   else if t = 0x32 then .kind .symlink           -- '2'
   else if t = 0x33 then .kind .chardev           -- '3'
   else if t = 0x34 then .kind .device            -- '4'
-  else if t = 0x35 then .kind .dir               -- '5'
+  else if t = 0x35 ∨ t = 0x44 then .kind .dir    -- '5', 'D' (GNU incremental dumpdir)
   else if t = 0x36 then .kind .fifo              -- '6'
-  else if t = 0x67 then .skip                    -- 'g'
+  else if t = 0x67 ∨ t = 0x56 then .skip         -- 'g', 'V' (GNU volume label)
   else .invalid
 
 /-- `fsTypeToTarType`; `none` = panic (sockets, invalid). -/
